@@ -18,13 +18,20 @@ namespace Gen8
 theorem add_eq (d : Rec α β) (m : TreeImage α β) (key : α) (value : β) :
     add d m key value = Imp.add cfgU8 d m key value := by
   simp only [add, Imp.add, cfgU8, Nat.reduceAdd, Nat.reduceSub, Bool.false_eq_true, if_false, if_true]
+  -- (either side of the two equality tests may be written first)
   by_cases h1 : m.hdr.flh = m.hdr.seq
-  · simp only [h1, if_true]
+  · simp only [h1, if_true, eq_self]
     split
-    · rfl
-    · simp only [bind, Option.bind, pure, wr_wr]
-      rfl
-  · simp only [h1, bind, Option.bind, pure, if_false, wr_wr]
+    · first
+      | rfl
+      | (rename_i h2; rw [if_pos h2.symm]; rfl)
+    · first
+      | (simp only [bind, Option.bind, pure, wr_wr]; rfl)
+      | (rename_i h2
+         rw [if_neg (fun h => h2 (Eq.symm h))]
+         simp only [bind, Option.bind, pure, wr_wr]; rfl)
+  · have h1' : ¬ m.hdr.seq = m.hdr.flh := fun h => h1 h.symm
+    simp only [h1, h1', bind, Option.bind, pure, if_false, wr_wr]
     rfl
 
 theorem remove_node_eq (d : Rec α β) (m : TreeImage α β) (i : Nat) (hi : i ≠ 0) :
